@@ -14,14 +14,15 @@ import gen
 from common import fx, unfx, rq, enc_list, close
 from props.c05 import ref_fit, allclose, fxs, bits, unf_opt, guard, frame_hash, mixed_dataset, relabel, plan_prob
 
-REQUIRED = ['numer_order_free', 'stoch_iptw_order_free', 'mc_assign_order_free', 'gf_assign_order_free', 'p_one_zero',
+REQUIRED = ['numer_order_free', 'cond_const_eq_uncond', 'stoch_iptw_const_eq_uncond', 'stoch_iptw_order_free', 'mc_assign_order_free', 'gf_assign_order_free', 'p_one_zero',
             'gf_p_one_zero', 'tmle_mc_degenerate', 'stoch_iptw_mixture', 'mc_mixture_realised', 'mc_average_mixture',
             'tmle_eps_zero']
 RULE = ('categorical data sets (1-3 covariates of arity 2-4, <= 12 strata, positivity by construction; binary / normal '
         'outcomes) with saturated models, and mixed data sets (categorical + continuous predictors) with non-saturated '
         'models; plans: unconditional p on the grid {0, .2, .5, .75, 1}, and 2-4 exclusive exhaustive conditions over the '
         'covariates (written over `df` / `g` as each class evaluates them) with random probabilities (incl. all-0 and '
-        'all-1) listed in EVERY order (all permutations); resamples in {1, 3, 10, 50}; seeds fixed and the draws captured '
+        'all-1, and all-equal p) listed in EVERY order (all permutations), as the complementary strings of a two-cell partition, and '
+        'as a one-pair listing selecting everybody; resamples in {1, 3, 5, 10, 50}; seeds fixed and the draws captured '
         'by wrapping np.random.choice / np.random.binomial at run time, then replayed attached to their conditions under '
         'each permutation.  distinct = (frame hash, estimator, plan, order); non-trivial = the plan is conditional with '
         '>= 2 different probabilities, or the strata have different treated fractions and cell means (mixture differs '
@@ -111,13 +112,25 @@ class Tap:
     def __init__(self, m, replay=None, perm=None):
         self.m, self.replay, self.perm, self.calls = m, replay, perm, []
         self._choice, self._binom = np.random.choice, np.random.binomial
+        self.assign = []       # treatment column of every frame handed to the outcome model's predict (one per resample)
 
     def __enter__(self):
+        import statsmodels.base.model as bm
         np.random.choice, np.random.binomial = self.choice, self.binomial
+        self._predict = bm.Results.predict
+        tap = self
+
+        def predict(self_, exog=None, *a, **k):
+            if isinstance(exog, pd.DataFrame) and 'A' in exog.columns:
+                tap.assign.append(np.asarray(exog['A'], dtype=float).copy())
+            return tap._predict(self_, exog, *a, **k)
+        bm.Results.predict = predict
         return self
 
     def __exit__(self, *a):
+        import statsmodels.base.model as bm
         np.random.choice, np.random.binomial = self._choice, self._binom
+        bm.Results.predict = self._predict
 
     def choice(self, a, size=None, replace=True, p=None):
         pool = tuple(int(v) for v in np.asarray(a))
@@ -137,6 +150,20 @@ class Tap:
             res = np.array(self.replay[(k // self.m) * self.m + self.perm[k % self.m]], dtype=int)
         self.calls.append({'p': float(p), 'size': int(size), 'res': [int(v) for v in np.asarray(res)]})
         return res
+
+
+def log10_binom(m, k):
+    from math import lgamma, log
+    return (lgamma(m + 1) - lgamma(k + 1) - lgamma(m - k + 1)) / log(10)
+
+
+def complement_listing(conds):
+    """the same two-cell partition written with the complementary condition strings: c1 == ~c2, c2 == ~c1"""
+    return ['~(%s)' % conds[1], '~(%s)' % conds[0]]
+
+
+def everyone(who, covs):
+    return ["%s['%s']>=0" % (who, covs[0])]
 
 
 def perms_of(m, tier):
@@ -169,6 +196,19 @@ def siptw_cell(chk, drv, df, cfg, rec):
             got = siptw_fit(df, cols, model, [p[i] for i in perm], [conds[i] for i in perm], wcol)
             chk.d(close(got, base, **TOLX), 'StochasticIPTW: listing order of the (condition, p) pairs changes nothing',
                   dict(case, order=list(perm), permuted=got))
+        if len(set(p)) == 1:
+            # theorem stoch_iptw_const_eq_uncond: exact
+            unc = siptw_fit(df, cols, model, float(p[0]), None, wcol)
+            chk.d(close(unc, base, **TOLX), 'StochasticIPTW: a conditional plan whose conditions all carry the same p = the '
+                  'unconditional plan p', dict(case, unconditional=unc))
+        if len(conds) == 2:
+            got = siptw_fit(df, cols, model, p, complement_listing(conds), wcol)
+            chk.d(close(got, base, **TOLX), 'StochasticIPTW: the same partition written with the complementary condition '
+                  'strings gives the same estimate', dict(case, complementary=got))
+    else:
+        one = siptw_fit(df, cols, model, [p], everyone('df', covs), wcol)
+        chk.d(close(one, base, **TOLX), 'StochasticIPTW: a one-pair listing whose condition selects everybody = the '
+              'unconditional plan', dict(case, one_pair=one))
     # reference treatment model
     m = ref_fit(chk, 'A ~ ' + model, df, wcol)
     if m is None:
@@ -246,45 +286,74 @@ def gf_cell(chk, drv, df, cfg, rec):
              if chk.evals % 19 == 0 else None)
     chk.count('GF/%s/%s/%s/samples=%d' % ('uncond' if conds is None else 'cond%d' % len(conds), tgt, ytype, samples))
     case['impl'] = base
-    # H: the captured draws are what numpy promises
     masks = [np.ones(len(df), dtype=bool)] if conds is None else masks_of(df, conds)
     plist = [p] if conds is None else list(p)
-    ok_draws = len(tap.calls) == samples * m
+    n = len(df)
+    # the realised assignment of every resample = the treatment column handed to the outcome model (observed at the
+    # predict call, so it does not depend on which numpy RNG entry point zEpid uses)
+    if len(tap.assign) != samples or any(len(a) != n or not set(np.unique(a)) <= {0.0, 1.0} for a in tap.assign):
+        chk.k(False, 'stochastic g-formula: one 0/1 treatment assignment per resample reaches the outcome model',
+              dict(case, predict_calls=len(tap.assign)))
+        return
+    treated = [a == 1.0 for a in tap.assign]
+    # D: within every condition exactly int(p * n_c) units are treated, nobody outside the conditions
+    ok_size = all(int((t & mk).sum()) == int(pk * int(mk.sum())) for t in treated for mk, pk in zip(masks, plist)) and \
+        all(not np.any(t & ~np.any(masks, axis=0)) for t in treated)
+    chk.d(ok_size, 'stochastic g-formula treats int(p*n_c) units among the rows selected by each condition',
+          dict(case, pools=[int(mk.sum()) for mk in masks], treated=[[int((t & mk).sum()) for mk in masks]
+                                                                      for t in treated[:3]]))
+    # H: the captured np.random.choice draws are what numpy promises (needed only to replay draws under permutations)
+    draws_ok = len(tap.calls) == samples * m
     for k, c in enumerate(tap.calls):
         chk.h_checked += 1
-        ok_draws = ok_draws and len(set(c['res'])) == len(c['res']) == c['size'] and set(c['res']) <= set(c['pool'])
-    if not ok_draws:
-        chk.discard('np.random.choice returned a malformed draw')
-        return
-    # D: the pools are the rows selected by the conditions and the sizes are int(p * |pool|)
-    ok_pool = all(sorted(c['pool']) == np.flatnonzero(masks[k % m]).tolist() for k, c in enumerate(tap.calls))
-    ok_size = all(c['size'] == int(plist[k % m] * len(c['pool'])) for k, c in enumerate(tap.calls))
-    chk.d(ok_pool and ok_size, 'stochastic g-formula draws int(p*n_c) units among the rows selected by each condition',
-          dict(case, pools=[len(c['pool']) for c in tap.calls[:m]], sizes=[c['size'] for c in tap.calls[:m]]))
+        draws_ok = draws_ok and len(set(c['res'])) == len(c['res']) == c['size'] and set(c['res']) <= set(c['pool'])
+    if draws_ok:
+        ok_pool = all(sorted(c['pool']) == np.flatnonzero(masks[k % m]).tolist() for k, c in enumerate(tap.calls))
+        ok_sz = all(c['size'] == int(plist[k % m] * len(c['pool'])) for k, c in enumerate(tap.calls))
+        chk.d(ok_pool and ok_sz, 'stochastic g-formula draws int(p*n_c) units among the rows selected by each condition',
+              dict(case, pools=[len(c['pool']) for c in tap.calls[:m]], sizes=[c['size'] for c in tap.calls[:m]]))
+    else:
+        chk.count('GF/draws-not-capturable-through-np.random.choice')
+    # D: the resamples are different draws.  If every resample drew independently, the probability that ALL `samples`
+    # treated sets coincide is prod_c C(n_c, k_c)^-(samples-1) (uniform draws of k_c among n_c, independent over
+    # conditions and resamples); the predicate is judged only in cells where that bound is < 1e-9.
+    lg = sum(log10_binom(int(mk.sum()), int(pk * int(mk.sum()))) for mk, pk in zip(masks, plist))
+    if samples >= 5 and min(int(mk.sum()) for mk in masks) >= 12 and (samples - 1) * lg > 9.0:
+        chk.count('GF/judged-resamples-differ')
+        chk.d(any(not np.array_equal(t, treated[0]) for t in treated[1:]),
+              'stochastic g-formula: the %d resamples do not all treat the same units (false-alarm probability '
+              '< 10^-%d)' % (samples, int((samples - 1) * lg)), dict(case, first_treated=np.flatnonzero(treated[0])[:20].tolist()))
     # D: same seed, same order -> same estimate (the estimate is a function of the draws only)
     again, _ = gf_fit(df, cols, model, ytype, tgt, p, conds, samples, seed, Tap(m))
     chk.d(close(again, base, **TOLX), 'stochastic g-formula: same seed gives the same estimate', dict(case, again=again))
+    # D: a one-pair listing whose condition selects everybody consumes the identical draw stream as the unconditional
+    # plan (same np.random.choice calls), so for a fixed seed the raw estimates coincide exactly
+    if conds is None:
+        one, _ = gf_fit(df, cols, model, ytype, tgt, [p], everyone('g', covs), samples, seed, Tap(1))
+        chk.d(close(one, base, **TOLX), 'stochastic g-formula, fixed seed: one-pair listing selecting everybody = '
+              'unconditional plan (identical draw stream)', dict(case, one_pair=one))
     # D: every listing order, meeting the same draws, gives the same estimate
-    if conds is not None:
+    if conds is not None and draws_ok:
         store = {(k // m, c['pool']): c['res'] for k, c in enumerate(tap.calls)}
         for perm in perms_of(m, chk.tier):
             got, _ = gf_fit(df, cols, model, ytype, tgt, [p[i] for i in perm], [conds[i] for i in perm], samples, seed,
                             Tap(m, replay=store))
             chk.d(close(got, base, **TOLX), 'stochastic g-formula: listing order of the (condition, p) pairs changes '
                   'nothing (draws attached to their conditions)', dict(case, order=list(perm), permuted=got))
+        if m == 2:
+            got, _ = gf_fit(df, cols, model, ytype, tgt, p, complement_listing(conds), samples, seed, Tap(m, replay=store))
+            chk.d(close(got, base, **TOLX), 'stochastic g-formula: the same partition written with the complementary '
+                  'condition strings gives the same estimate', dict(case, complementary=got))
     # D: degenerate plans
     pi = plan_prob(df, p, conds)
     if np.all(pi == 1.0) or np.all(pi == 0.0):
         gobj.fit('all' if pi[0] == 1.0 else 'none')
         chk.d(close(base, float(gobj.marginal_outcome), **TOLX), "stochastic g-formula with p = %d everywhere = "
               "fit('%s')" % (int(pi[0]), 'all' if pi[0] == 1 else 'none'), dict(case, det=float(gobj.marginal_outcome)))
-    # realised treated sets per resample
-    treated = []
-    for sidx in range(samples):
-        t = np.zeros(len(df), dtype=bool)
-        for c in tap.calls[sidx * m:(sidx + 1) * m]:
-            t[c['res']] = True
-        treated.append(t)
+        if conds is not None:
+            unc, _ = gf_fit(df, cols, model, ytype, tgt, float(pi[0]), None, samples, seed, Tap(1))
+            chk.d(close(unc, base, **TOLX), 'stochastic g-formula: conditional [%d,...,%d] = unconditional %d exactly'
+                  % (int(pi[0]), int(pi[0]), int(pi[0])), dict(case, unconditional=unc))
     tm = target_mask(df, tgt)
     cl = cells(df, covs) if sat else None
     if sat:
@@ -313,16 +382,16 @@ def gf_cell(chk, drv, df, cfg, rec):
         q1 = np.asarray(om.predict(df.assign(A=1)))
         q0 = np.asarray(om.predict(df.assign(A=0)))
         sid = cl['sid'] if cl else np.zeros(len(df), dtype=int)
-        chosen = '|'.join(';'.join(enc_list(c['res'], str) for c in tap.calls[s * m:(s + 1) * m]) for s in range(samples))
+        chosen = '|'.join(';'.join(enc_list(np.flatnonzero(t & mk).tolist(), str) for mk in masks) for t in treated)
         rep, _ = drv.ask('gfmc', c='f', tgt=tgt, q1=fxs(q1), q0=fxs(q0), chosen=chosen, **enc_rows_f(df, sid))
         chk.k(rep['status'] == 'ok' and close(unfx(rep['m']), base, **TOLD),
               'stochastic g-formula = Lean model on the reference predictions and the captured draws',
               dict(case, model=rep.get('m')))
         ok = True
-        for k, c in enumerate(tap.calls[:m]):
-            r2, _ = drv.ask('plansize', c='f', p=fx(plist[k % m]), n=len(c['pool']))
-            ok = ok and r2['status'] == 'ok' and int(r2['size']) == c['size']
-        chk.k(ok, 'requested draw sizes = Lean planSize (floor of the floating-point product)', case)
+        for mk, pk in zip(masks, plist):
+            r2, _ = drv.ask('plansize', c='f', p=fx(pk), n=int(mk.sum()))
+            ok = ok and r2['status'] == 'ok' and int(r2['size']) == int((treated[0] & mk).sum())
+        chk.k(ok, 'treated counts = Lean planSize (floor of the floating-point product)', case)
 
 
 # ------------------------------------------------------------------------------------------- StochasticTMLE
@@ -354,42 +423,78 @@ def stmle_cell(chk, drv, df, cfg, rec):
     case['impl'] = {'marginal': base, 'epsilon': eps}
     plist = [p] if conds is None else list(p)
     n = len(df)
-    ok_draws = len(tap.calls) == samples * m
+    masks = [np.ones(n, dtype=bool)] if conds is None else masks_of(df, conds)
+    pi = plan_prob(df, p, conds)
+    cse = float(t.conditional_se)           # deterministic function of the clever covariate and the initial predictions
+    # realised assignment of every resample = the treatment column handed to the outcome model's predict
+    if len(tap.assign) != samples or any(len(a) != n or not set(np.unique(a)) <= {0.0, 1.0} for a in tap.assign):
+        chk.k(False, 'StochasticTMLE: one 0/1 treatment assignment per resample reaches the outcome model',
+              dict(case, predict_calls=len(tap.assign)))
+        return
+    assigned = [a == 1.0 for a in tap.assign]
+    # H: the captured np.random.binomial draws are what numpy promises (needed only to replay draws under permutations)
+    draws_ok = len(tap.calls) == samples * m
     for k, c in enumerate(tap.calls):
         chk.h_checked += 1
         pk = plist[k % m]
-        ok_draws = ok_draws and len(c['res']) == n and set(c['res']) <= {0, 1} and c['p'] == pk and \
+        draws_ok = draws_ok and len(c['res']) == n and set(c['res']) <= {0, 1} and c['p'] == pk and \
             (pk != 1.0 or all(v == 1 for v in c['res'])) and (pk != 0.0 or all(v == 0 for v in c['res']))
-    if not ok_draws:
-        chk.discard('np.random.binomial draw not as assumed')
-        return
-    masks = [np.ones(n, dtype=bool)] if conds is None else masks_of(df, conds)
+    if not draws_ok:
+        chk.count('STMLE/draws-not-capturable-through-np.random.binomial')
+    # D: rows with plan probability 1 (0) are treated (untreated) in every resample
+    chk.d(all(np.all(a[pi == 1.0]) and not np.any(a[pi == 0.0]) for a in assigned),
+          'StochasticTMLE: rows whose plan probability is 1 (0) are treated (untreated) in every resample', case)
+    # D: the resamples are different draws.  With independent Bernoulli(p_i) draws the probability that all `samples`
+    # assignment vectors coincide is prod_i (p_i^samples + (1-p_i)^samples); judged only where that is < 1e-9.
+    lg = float(np.sum(np.log10(pi ** samples + (1 - pi) ** samples)))
+    if samples >= 5 and lg < -9.0:
+        chk.count('STMLE/judged-resamples-differ')
+        chk.d(any(not np.array_equal(a, assigned[0]) for a in assigned[1:]),
+              'StochasticTMLE: the %d resamples do not all assign the same treatments (false-alarm probability < 10^%d)'
+              % (samples, int(lg)), dict(case, first=assigned[0][:30].astype(int).tolist()))
     # D: every listing order, meeting the same draws: same clever covariate (epsilon) and same estimate
-    if conds is not None:
+    if conds is not None and draws_ok:
         store = [c['res'] for c in tap.calls]
-        for perm in perms_of(m, chk.tier):
-            t2 = stmle_fit(df, cols, gmodel, qmodel, [p[i] for i in perm], [conds[i] for i in perm], samples, seed,
-                           Tap(m, replay=store, perm=list(perm)))
+        variants = [([p[i] for i in perm], [conds[i] for i in perm], list(perm), 'listing order of the (condition, p) pairs')
+                    for perm in perms_of(m, chk.tier)]
+        if m == 2:
+            variants.append((p, complement_listing(conds), [0, 1], 'writing the partition with the complementary condition '
+                             'strings'))
+        for pp, cc, perm, what in variants:
+            t2 = stmle_fit(df, cols, gmodel, qmodel, pp, cc, samples, seed, Tap(m, replay=store, perm=perm))
             chk.d(close(float(t2.epsilon), eps, rtol=1e-9, atol=1e-12) and close(float(t2.marginal_outcome), base, **TOLX)
-                  and allclose(np.asarray(t2.marginals_vector, dtype=float), mv, **TOLX),
-                  'StochasticTMLE: listing order of the (condition, p) pairs changes nothing (draws attached to their '
-                  'conditions)', dict(case, order=list(perm), permuted={'marginal': float(t2.marginal_outcome),
-                                                                       'epsilon': float(t2.epsilon)}))
-    pi = plan_prob(df, p, conds)
+                  and allclose(np.asarray(t2.marginals_vector, dtype=float), mv, **TOLX)
+                  and close(float(t2.conditional_se), cse, rtol=1e-9, atol=1e-12),
+                  'StochasticTMLE: %s changes nothing (draws attached to their conditions)' % what,
+                  dict(case, order=perm, permuted={'marginal': float(t2.marginal_outcome), 'epsilon': float(t2.epsilon)}))
+    # D: a conditional plan whose conditions all carry the same p has the clever covariate of the unconditional plan p
+    # (theorem cond_const_eq_uncond): same targeting (epsilon, conditional SE); with p in {0, 1} the Monte-Carlo
+    # integration is degenerate, so the estimates coincide exactly too
+    if conds is not None and len(set(p)) == 1:
+        tu = stmle_fit(df, cols, gmodel, qmodel, float(p[0]), None, samples, seed, Tap(1))
+        ok = close(float(tu.epsilon), eps, rtol=1e-9, atol=1e-12) and close(float(tu.conditional_se), cse, rtol=1e-9, atol=1e-12)
+        if p[0] in (0.0, 1.0):
+            ok = ok and close(float(tu.marginal_outcome), base, **TOLX) and \
+                allclose(np.asarray(tu.marginals_vector, dtype=float), mv, **TOLX)
+        chk.d(ok, 'StochasticTMLE: a conditional plan whose conditions all carry the same p targets exactly like the '
+              'unconditional plan p (epsilon, conditional SE; estimates too when p is 0 or 1)',
+              dict(case, unconditional={'marginal': float(tu.marginal_outcome), 'epsilon': float(tu.epsilon),
+                                        'conditional_se': float(tu.conditional_se)}, conditional_se=cse))
+    # D: a one-pair listing whose condition selects everybody consumes the identical draw stream as the unconditional
+    # plan, so for a fixed seed everything coincides exactly
+    if conds is None:
+        t1 = stmle_fit(df, cols, gmodel, qmodel, [p], everyone('df', covs), samples, seed, Tap(1))
+        chk.d(close(float(t1.epsilon), eps, rtol=1e-9, atol=1e-12) and close(float(t1.marginal_outcome), base, **TOLX)
+              and allclose(np.asarray(t1.marginals_vector, dtype=float), mv, **TOLX)
+              and close(float(t1.conditional_se), cse, rtol=1e-9, atol=1e-12),
+              'StochasticTMLE, fixed seed: one-pair listing selecting everybody = unconditional plan (identical draw stream)',
+              dict(case, one_pair={'marginal': float(t1.marginal_outcome), 'epsilon': float(t1.epsilon)}))
     # D: degenerate plans: Monte-Carlo integration is degenerate (all resamples identical, seed irrelevant)
     if np.all(pi == 1.0) or np.all(pi == 0.0):
         t3 = stmle_fit(df, cols, gmodel, qmodel, p, conds, samples, seed + 17, Tap(m))
         chk.d(float(mv.max() - mv.min()) <= 1e-14 and close(float(t3.marginal_outcome), base, **TOLX),
               'StochasticTMLE with p = %d everywhere: every resample identical, independent of the seed' % int(pi[0]),
               dict(case, spread=float(mv.max() - mv.min()), other_seed=float(t3.marginal_outcome)))
-    # realised assignment per resample (function of the draws)
-    assigned = []
-    for s in range(samples):
-        a = np.zeros(n, dtype=bool)
-        for k in range(m):
-            d = np.asarray(tap.calls[s * m + k]['res'], dtype=bool)
-            a = np.where(masks[k], d, a)
-        assigned.append(a)
     cl = cells(df, covs) if sat else None
     if sat:
         chk.h_checked += 1
@@ -443,7 +548,7 @@ def stmle_cell(chk, drv, df, cfg, rec):
         chk.k(ok, 'StochasticTMLE epsilon = targeting fit on the Lean clever covariate (plan probability / fitted '
               'probability of the received treatment)', dict(case, ref_eps=float(np.asarray(tg.params)[0]) if ok or
                                                              rep['status'] == 'ok' else None))
-        draws = '|'.join(';'.join(bits(c['res']) for c in tap.calls[s * m:(s + 1) * m]) for s in range(samples))
+        draws = '|'.join(';'.join(bits(a) for _ in range(m)) for a in assigned)
         rep, _ = drv.ask('tmlemc', q1=fxs(q1), q0=fxs(q0), eps=fx(eps), masks=';'.join(bits(mk) for mk in masks),
                          draws=draws, **enc_rows_f(df, sid))
         ok = rep['status'] == 'ok' and rep['m'] != '_' and close(unfx(rep['m']), base, **TOLD) and \
@@ -464,13 +569,14 @@ def plans_for(df, covs, rng, who):
         if i == 0:
             out.append(([1.0] * len(cs), cs))
             out.append(([0.0] * len(cs), cs))
+            out.append(([0.3] * len(cs), cs))
             mixed = [float(v) for v in rng.choice([0.0, 1.0, 0.5], size=len(cs))]
             out.append((mixed, cs))
     return out
 
 
 def run(chk, drv, rng, tier):
-    nsat = 3 if tier == 'quick' else 30
+    nsat = 3 if tier == 'quick' else 24
     t = 0
     for i in range(nsat):
         ytype = 'binary' if i % 3 != 2 else 'normal'
@@ -487,6 +593,11 @@ def run(chk, drv, rng, tier):
             cfg = dict(covs=covs, model=satq, p=p, conditional=cs, saturated=True, standardize=tgt, outcome=ytype,
                        samples=SAMPLES[t % 4], seed=int(rng.integers(1, 10 ** 6)))
             guard(chk, 'TimeFixedGFormula.fit_stochastic', cfg, rec, gf_cell, drv, df, cfg, rec)
+        cs0 = cond_sets(df, covs, rng, 'g')[1]
+        for p, cs in ((0.5, None), ([float(v) for v in np.round(rng.uniform(0.3, 0.7, size=2), 2)], cs0)):
+            cfg = dict(covs=covs, model=satq, p=p, conditional=cs, saturated=True, standardize='population', outcome=ytype,
+                       samples=5, seed=int(rng.integers(1, 10 ** 6)))
+            guard(chk, 'TimeFixedGFormula.fit_stochastic', cfg, rec, gf_cell, drv, df, cfg, rec)
         if ytype == 'binary':
             for p, cs in plans_for(df, covs, rng, 'df'):
                 t += 1
@@ -494,7 +605,7 @@ def run(chk, drv, rng, tier):
                            samples=SAMPLES[t % 4], seed=int(rng.integers(1, 10 ** 6)))
                 guard(chk, 'StochasticTMLE', cfg, rec, stmle_cell, drv, df, cfg, rec)
     # non-saturated models on data with a continuous predictor: order-freeness and degenerate plans do not need saturation
-    for i in range(2 if tier == 'quick' else 16):
+    for i in range(2 if tier == 'quick' else 12):
         df = relabel(mixed_dataset(rng), rng, ['shuffled', 'default', 'shifted'][i % 3]).drop(columns=['w'])
         rec = {'frame': gen.frame_record(df), 'n': len(df), 'covs': ['L1', 'L2']}
         covs = ['L1', 'L2']
@@ -509,16 +620,23 @@ def run(chk, drv, rng, tier):
             for cs in css:
                 plans.append(([float(v) for v in np.round(rng.uniform(0.05, 0.95, size=len(cs)), 2)], cs))
             plans.append(([1.0] * 3, css[0]))
-            for p, cs in plans:
+            plans.append(([0.0] * 3, css[0]))
+            plans.append(([0.3] * 3, css[0]))
+            plans.append(([0.8] * 2, css[1]))
+            plans.append((0.5, None, 5))
+            plans.append(([float(v) for v in np.round(rng.uniform(0.3, 0.7, size=2), 2)], css[1], 5))
+            for pl in plans:
+                p, cs = pl[0], pl[1]
                 t += 1
                 if kind == 'StochasticIPTW':
                     cfg = dict(covs=covs, model=gm, p=p, conditional=cs, saturated=False, weights=None)
                 elif kind == 'StochasticTMLE':
                     cfg = dict(covs=covs, gmodel=gm, qmodel=qm, p=p, conditional=cs, saturated=False,
-                               samples=SAMPLES[t % 4], seed=int(rng.integers(1, 10 ** 6)))
+                               samples=(pl[2] if len(pl) > 2 else SAMPLES[t % 4]), seed=int(rng.integers(1, 10 ** 6)))
                 else:
                     cfg = dict(covs=covs, model=qm, p=p, conditional=cs, saturated=False, standardize='population',
-                               outcome='binary', samples=SAMPLES[t % 4], seed=int(rng.integers(1, 10 ** 6)))
+                               outcome='binary', samples=(pl[2] if len(pl) > 2 else SAMPLES[t % 4]),
+                               seed=int(rng.integers(1, 10 ** 6)))
                 guard(chk, kind, cfg, rec, fn, drv, df, cfg, rec)
 
 
